@@ -24,61 +24,8 @@ def run(ctx):
     prog = ctx.prog()
     oc = prog.method("Obm", "cmp", "Ord")
     g = cfg(oc)
-    # ---------------------------------------------------------------- R-ORDER
-    probs = []
-    cmps = [(bb, t) for bb, t in K.calls(oc) if (F.callee(t) or {}).get("fn", "").endswith("cmp::Ord::cmp") or (F.callee_key(t) or "").endswith("::cmp")]
-    mask_cmp = [x for x in cmps if dep.has_call(dep.arg_origins(oc, x[0], 0), "subnetting::{impl#7}::mask")]
-    id_cmp = [x for x in cmps if dep.has_call(dep.arg_origins(oc, x[0], 0), "subnetting::{impl#7}::id")]
-    rev = [(bb, t) for bb, t in K.calls(oc) if (F.callee_key(t) or "").endswith("cmp::{impl#0}::reverse") or (F.callee(t) or {}).get("pretty", "").endswith("Ordering::reverse")]
-    if len(mask_cmp) != 1 or len(id_cmp) != 1:
-        probs.append("expected one comparison of masks and one of ids (found %d, %d)" % (len(mask_cmp), len(id_cmp)))
-    else:
-        for what, (bb, t) in (("mask", mask_cmp[0]), ("id", id_cmp[0])):
-            a0, a1 = dep.arg_origins(oc, bb, 0), dep.arg_origins(oc, bb, 1)
-            if not (dep.has_param(a0, "self") and not dep.has_param(a0, "other") and dep.has_param(a1, "other") and not dep.has_param(a1, "self")):
-                probs.append("the %s comparison is not cmp(self.%s, other.%s) in that order" % (what, what, what))
-            if what == "id" and not dep.has_call(a1, "subnetting::{impl#7}::id"):
-                probs.append("ids are not compared with ids")
-            if what == "mask" and not dep.has_call(a1, "subnetting::{impl#7}::mask"):
-                probs.append("masks are not compared with masks")
-        mbb = mask_cmp[0][0]
-        # switch on the mask ordering: Equal (discriminant 0) arm -> id comparison; others -> reverse
-        sw = None
-        for s in range(len(oc.blocks)):
-            if oc.term(s)[0] == "switch":
-                c = dep.switch_condition(oc, s)
-                if c and c["kind"] == "discr" and c["place"] == F.call_dest(mask_cmp[0][1]):
-                    sw = s
-        if sw is None:
-            probs.append("the mask ordering is not matched")
-        else:
-            eq_arm = K.skip_false_edges(oc, dep.switch_target(oc, sw, 0))
-            lt_arm = K.skip_false_edges(oc, dep.switch_target(oc, sw, -1))
-            gt_arm = K.skip_false_edges(oc, dep.switch_target(oc, sw, 1))
-            lt_arm2 = K.skip_false_edges(oc, dep.switch_target(oc, sw, 255))
-            if not g.dominates(eq_arm, id_cmp[0][0]) or g.reaches(gt_arm, id_cmp[0][0]):
-                probs.append("ids are not compared exactly when the masks are equal")
-            if len(rev) != 1:
-                probs.append("expected exactly one Ordering::reverse (mask descending), found %d" % len(rev))
-            else:
-                rbb = rev[0][0]
-                if not g.dominates(gt_arm, rbb) or g.reaches(eq_arm, rbb):
-                    probs.append("the reversed mask ordering is not returned exactly when the masks differ")
-                ro = dep.arg_origins(oc, rbb, 0, through_calls=False)
-                if not any(a[0] == "call" and a[2] == mbb for a in ro):
-                    probs.append("reverse() is not applied to the mask ordering")
-                if F.call_dest(rev[0][1]) != [0, []]:
-                    ret = dep.origins(oc, [0, []], at=K.at_term(oc, g.returns[0]), through_calls=False)
-                    if not any(a[0] == "call" and a[2] == rbb for a in ret):
-                        probs.append("the reversed ordering is not what is returned")
-            if F.call_dest(id_cmp[0][1]) != [0, []]:
-                ret = dep.origins(oc, [0, []], at=K.at_term(oc, g.returns[0]), through_calls=False)
-                if not any(a[0] == "call" and a[2] == id_cmp[0][0] for a in ret):
-                    probs.append("the id ordering is not what is returned for equal masks")
-            if any(a for bb, t in K.calls(oc) if (F.callee_key(t) or "").endswith("::reverse") for a in [1]) and len(rev) > 1:
-                probs.append("more than one reverse()")
-    (ctx.bad if probs else ctx.ok)("R-ORDER", "R-ORDER:Obm::cmp", oc.span, "; ".join(probs) if probs else
-        "masks(self, other) compared first and reversed (longest mask first); equal masks -> ids(self, other)")
+    # ---------------------------------------------------------------- R-ORDER (semantic: netarith.check_obm_order)
+    netarith.check_obm_order(ctx, "R-ORDER")
     pc = prog.method("Obm", "partial_cmp", "PartialOrd")
     okk = len(K.calls_to(pc, oc.key)) == 1
     (ctx.ok if okk else ctx.bad)("R-ORDER", "R-ORDER:Obm::partial_cmp", pc.span, "partial_cmp delegates to cmp" if okk else "PartialOrd for Obm does not delegate to Ord::cmp")
